@@ -34,7 +34,7 @@ func (g *gen) lit(prefix string) Expr {
 }
 
 // constructs: each takes the nested content and returns nodes
-const nKinds = 14
+const nKinds = 17
 
 func (g *gen) build(kind int, inner []Node) []Node {
 	g.n++
@@ -84,6 +84,12 @@ func (g *gen) build(kind int, inner []Node) []Node {
 		file := fmt.Sprintf("ssi%d", id)
 		g.files["/"+file] = cat(p("ssi"), []Node{Set{Name: "a", E: g.lit("ss")}, Set{Name: "b", E: g.lit("ss")}}, p("ssi'"))
 		return cat([]Node{Include{File: file, SSI: true}}, inner)
+	case 14: // autoescape (no scope of its own): a set inside it is visible after it
+		return cat([]Node{Autoescape{On: false, Body: cat([]Node{Set{Name: "a", E: g.lit("ae")}}, p("ae"), inner)}}, p("ae'"))
+	case 15: // set to nothing: the name is bound (to nothing) and hides the caller's and the set's entries
+		return cat([]Node{Set{Name: "a", E: v("nothing")}}, p("sn"), inner, p("sn'"))
+	case 16: // autoescape on inside a with: the set made inside belongs to the with scope, not to an autoescape scope
+		return []Node{With{Pairs: []Pair{{"b", g.lit("wb")}}, Body: cat([]Node{Autoescape{On: true, Body: cat([]Node{Set{Name: "b", E: g.lit("ab")}}, inner)}}, p("wa"))}}
 	case 12: // for over nothing: the empty branch is part of the loop's scope, a set inside it must not leak
 		return []Node{For{Key: "a", Over: v("nothing"), Body: []Node{T("never")}, HasEmpty: true, Empty: cat(p("e"), []Node{Set{Name: "a", E: g.lit("es")}, Set{Name: "b", E: g.lit("es")}}, inner, p("e'"))}}
 	}
@@ -215,7 +221,7 @@ func run(r *eng.Runner) {
 	if !r.Quick() {
 		depth = 4
 	}
-	r.Group("nestings", "prog.case", fmt.Sprintf("all nestings of depth 1..%d over %d binding constructs (with new/old/swap, for, set, if+set, macro param/default, include with/only) binding the names a and b that also exist in the caller context and the set's globals; probes before, inside and after every construct", depth, nKinds))
+	r.Group("nestings", "prog.case", fmt.Sprintf("all nestings of depth 1..%d over %d binding constructs (with new/old/swap, for, set, set to nothing, if+set, autoescape+set, macro param/default, include with/only, ssi parsed) binding the names a and b that also exist in the caller context and the set's globals; probes before, inside and after every construct", depth, nKinds))
 	var rec func(kinds []int)
 	emit := func(kinds []int) {
 		g := &gen{files: map[string][]Node{}}
